@@ -300,7 +300,7 @@ CHECKS["C02"] = {
     "assumptions": ["at most R-1 stops in total (Olric does not re-create lost redundancy)"],
     "parts": [
         {"name": "durability", "pkg": ROOT, "test": "TestVerifC02", "kind": "rapid",
-         "checks_quick": 6, "checks_thorough": 120, "shards_quick": 8, "shards_thorough": 16, "timeout_quick": 400, "timeout_thorough": 2400},
+         "checks_quick": 16, "checks_thorough": 120, "shards_quick": 14, "shards_thorough": 16, "timeout_quick": 400, "timeout_thorough": 2400},
     ],
 }
 
